@@ -49,7 +49,8 @@ pub fn authzone_scenario() {
             .create_proof_from_account_of_non_fungibles(a0, VALIDATOR_OWNER_BADGE, [id.clone()])
             .create_proof_from_auth_zone_of_amount(badge, dec!(2), "p0")
             .create_proof_from_auth_zone_of_all(VALIDATOR_OWNER_BADGE, "p2")
-            .drop_all_proofs()
+            .drop_named_proofs()
+            .drop_auth_zone_regular_proofs()
             .withdraw_from_account(a0, badge, bal)
             .withdraw_non_fungibles_from_account(a0, VALIDATOR_OWNER_BADGE, [id.clone()])
             .deposit_entire_worktop(a0)
